@@ -754,6 +754,19 @@ def consistency(fs, check_csums=True):
             links_found[ci] = links_found.get(ci, 0) + 1
             if ci not in used_set:
                 add("ibitmap", "directory %d entry %r references unused inode %d" % (d, name[:20], ci))
+    # '..' names the directory that holds the entry leading here (the root is its own parent)
+    holders = {}
+    for d, ents in dirs.items():
+        for name, ci, ft in (ents or []):
+            if name not in (b".", b"..") and ci in dirs:
+                holders.setdefault(ci, set()).add(d)
+    for d, ents in dirs.items():
+        if ents is None or len(ents) < 2 or ents[1][0] != b"..":
+            continue
+        up = ents[1][1]
+        want = {2} if d == 2 else holders.get(d)
+        if want and up not in want:
+            add("dotdot", "'..' of directory %d names inode %d, the directory is held by %s" % (d, up, sorted(want)))
     reach, stack = set(), [2]
     while stack:
         d = stack.pop()
